@@ -32,50 +32,37 @@ impl CompressionStrategy<u32> for IdStrat {
 }
 
 type CV = ReadWriteCompressedVec<usize, u32, IdStrat>;
-const PP: usize = 2; // values per page
-const DCAP: usize = HEADER_OFFSET + 3 * 8; // data region: header + 3 pages
-const PCAP: usize = 3 * 16; // page-index region
+const PP: usize = 4; // values per page (16-byte pages under cfg(kani))
+const DCAP: usize = HEADER_OFFSET + 2 * 16; // data region: header + 2 pages
+const PCAP: usize = 2 * 16; // page-index region
 
-#[kani::proof]
-#[kani::unwind(8)]
-#[kani::stub(alloc::fmt::format, stubs::format_stub)]
-#[kani::stub(rawdb::Database::sync_bg_tasks, rawdb::verif_root::sync_bg_tasks_stub)]
-#[kani::stub(std::vec::Vec::<T>::with_capacity, stubs::with_capacity_stub64)]
-#[kani::stub(std::vec::Vec::<T>::reserve, stubs::reserve_stub64)]
-#[kani::stub(<[u8]>::to_vec, stubs::to_vec_stub8)]
-fn c07_compressed_write_step() {
+/// One write() step from the well-formed index "f full compressed pages + a raw tail page with t
+/// values" (f <= 1, t <= 3), logical length `stored_len` (<= on-disk: truncated or not) and `np`
+/// pushed values.  Structure concrete (symbolic lengths make std's Vec machinery exhaust memory in
+/// symbolic execution), all element values and file bytes symbolic.
+fn comp_body(f: usize, t: usize, stored_len: usize, np: usize) {
     assert!(CV::PER_PAGE == PP);
     let mut buf: Box<[u8; DCAP + PCAP]> = Box::new(kani::any());
-    // well-formed index: f full compressed pages + optionally one raw tail page with 1 value
-    let f: usize = kani::any();
-    let t: usize = kani::any();
-    kani::assume(f <= 2 && t <= 1);
     let real_len = PP * f + t;
+    assert!(f <= 1 && t <= 3 && stored_len <= real_len && np <= 4 && stored_len + np <= 8);
     let mut ps = [Page::compressed(0, 0, 0); 3];
-    let mut i = 0;
-    while i < 3 {
-        if i < f {
-            ps[i] = Page::compressed((HEADER_OFFSET + 8 * i) as u64, 8, PP as u32);
-        } else if i == f && t == 1 {
-            ps[i] = Page::raw((HEADER_OFFSET + 8 * i) as u64, 4, 1);
-        }
-        i += 1;
+    if f == 1 {
+        ps[0] = Page::compressed(HEADER_OFFSET as u64, 16, PP as u32);
     }
-    let npages = f + t;
-    let data_len = HEADER_OFFSET + 8 * f + 4 * t;
-    let mut disk = [0u32; 6];
+    if t > 0 {
+        ps[f] = Page::raw((HEADER_OFFSET + 16 * f) as u64, (4 * t) as u32, t as u32);
+    }
+    let npages = f + (t > 0) as usize;
+    let data_len = HEADER_OFFSET + 16 * f + 4 * t;
+    let mut disk = [0u32; 8];
     let mut i = 0;
-    while i < 6 {
+    while i < 8 {
         let o = HEADER_OFFSET + 4 * i;
         disk[i] = u32::from_le_bytes([buf[o], buf[o + 1], buf[o + 2], buf[o + 3]]);
         i += 1;
     }
     let (db, data_region, pages_region) =
         rawdb::verif_root::api_contract_db2(buf.as_mut_ptr(), DCAP, data_len, PCAP, 16 * npages);
-    let stored_len: usize = kani::any();
-    kani::assume(stored_len <= real_len);
-    let np: usize = kani::any();
-    kani::assume(np <= 2 && stored_len + np <= 6);
     let pv: [u32; 4] = kani::any();
     let header = crate::base::verif_header::mk_header(kani::any(), kani::any(), kani::any(), Format::Pco);
     let base = mk_base::<usize, u32>(data_region, header, stored_len, vec4(&pv, np), Vec::new(), stored_len, 0);
@@ -113,18 +100,45 @@ fn c07_compressed_write_step() {
         assert!(pages_region_len(&pages) == 16 * n, "page-index region length differs from 16 * pages");
         assert!(!pages_pending(&pages));
     }
-    // lossless: every element reads back as the reference (old prefix ++ pushed), and is on disk
+    // lossless: every element is on disk where the index says (identity codec: slot k at 32 + 4k)
     let k: usize = kani::any();
-    kani::assume(k < 6);
+    kani::assume(k < 8);
     if k < new_len {
         let want = if k < stored_len { disk[k] } else { pv[k - stored_len] };
         let o = HEADER_OFFSET + 4 * k;
         assert!(u32::from_le_bytes([buf[o], buf[o + 1], buf[o + 2], buf[o + 3]]) == want);
     }
-    kani::cover!(t == 1 && stored_len == real_len && np == 0, "no-op write on a raw tail");
-    kani::cover!(t == 1 && stored_len == real_len && np == 1, "raw tail filled exactly");
-    kani::cover!(f == 2 && stored_len == 3 && np == 0, "truncation into a compressed page");
-    kani::cover!(f == 1 && t == 1 && stored_len == 2 && np == 0, "truncation onto a page boundary, nothing pushed");
-    kani::cover!(f == 1 && stored_len == 2 && np == 2, "fresh full page appended");
+    kani::cover!(true, "write step completed");
     core::mem::forget((r, v, db, buf));
+}
+
+macro_rules! comp {
+    ($( $name:ident = ($f:expr, $t:expr, $sl:expr, $np:expr); )*) => {
+        $(
+            #[kani::proof]
+            #[kani::unwind(10)]
+            #[kani::stub(alloc::fmt::format, stubs::format_stub)]
+            #[kani::stub(rawdb::Database::sync_bg_tasks, rawdb::verif_root::sync_bg_tasks_stub)]
+            #[kani::stub(<[u8]>::to_vec, stubs::to_vec_stub8)]
+            fn $name() {
+                comp_body($f, $t, $sl, $np);
+            }
+        )*
+    };
+}
+// (full pages, raw tail values, logical length, pushed)
+comp! {
+    c07_cw_fresh_raw = (0, 0, 0, 1);
+    c07_cw_fresh_full = (0, 0, 0, 4);
+    c07_cw_fast_append = (0, 2, 2, 1);
+    c07_cw_fill_exactly = (0, 2, 2, 2);
+    c07_cw_overflow_by_one = (0, 3, 3, 2);
+    c07_cw_trunc_in_raw = (0, 2, 1, 0);
+    c07_cw_trunc_in_raw_push = (0, 2, 1, 1);
+    c07_cw_trunc_boundary = (1, 2, 4, 0);
+    c07_cw_trunc_in_compressed = (1, 0, 2, 0);
+    c07_cw_trunc_in_compressed_push = (1, 0, 2, 1);
+    c07_cw_fill_second_page = (1, 1, 5, 3);
+    c07_cw_trunc_to_zero = (0, 2, 0, 0);
+    c07_cw_noop = (1, 2, 6, 0);
 }
